@@ -8,7 +8,7 @@ import re
 from ..cfg import build_cfg, calls_in, node_calls
 from ..core import Ctx, property_info, rule, share
 from ..model import AnalysisError, FuncInfo, anon_text, walk_no_nested
-from ..q import Dispatch, family, call_param, passes, value_texts, func_text, reach_table, reach_env, L, call_name_of, control_deps, entry_conditions, expand, leaves_at, node_containing, raw_forms, expand_at, flow_conditions, flows, forms, return_values, str_template, template_text, tests_like, A, MUTATORS, asrc, enum_members, is_self_attr, kwarg, root_name, stores, unparse
+from ..q import call_keywords, Dispatch, family, call_param, passes, value_texts, func_text, reach_table, reach_env, L, call_name_of, control_deps, entry_conditions, expand, leaves_at, node_containing, raw_forms, expand_at, flow_conditions, flows, forms, return_values, str_template, template_text, tests_like, A, MUTATORS, asrc, enum_members, is_self_attr, kwarg, root_name, stores, unparse
 
 DM = "xsdata.codegen.mappers.dtd"
 DP = "xsdata.codegen.parsers.dtd"
@@ -53,13 +53,24 @@ def _enum_dispatch(fi: FuncInfo, enum_name: str) -> Dispatch:
                 for x in sides:
                     if isinstance(x, ast.Attribute) and isinstance(x.value, ast.Name) and x.value.id == enum_name:
                         return frozenset([x.attr]), isinstance(op, (ast.Eq, ast.Is))
-            if isinstance(op, (ast.In, ast.NotIn)) and isinstance(sides[1], (ast.Tuple, ast.List, ast.Set)):
-                ms = [x.attr for x in sides[1].elts if isinstance(x, ast.Attribute) and isinstance(x.value, ast.Name) and x.value.id == enum_name]
-                if ms and len(ms) == len(sides[1].elts):
-                    return frozenset(ms), isinstance(op, ast.In)
+            if isinstance(op, (ast.In, ast.NotIn)):
+                coll = sides[1]
+                if isinstance(coll, ast.Name) and coll.id in fi.module.globals:
+                    coll = fi.module.globals[coll.id]  # a module-level table: `x in TABLE`
+                    if isinstance(coll, ast.Call) and coll.args and unparse(coll.func) in ("frozenset", "set", "tuple", "dict"):
+                        coll = coll.args[0]
+                elts = coll.elts if isinstance(coll, (ast.Tuple, ast.List, ast.Set)) else ([k for k in coll.keys if k is not None] if isinstance(coll, ast.Dict) else None)
+                if elts is not None:
+                    ms = [x.attr for x in elts if isinstance(x, ast.Attribute) and isinstance(x.value, ast.Name) and x.value.id == enum_name]
+                    if ms and len(ms) == len(elts):
+                        return frozenset(ms), isinstance(op, ast.In)
         return None
 
-    return Dispatch(fi.node, classify=classify)
+    d = Dispatch(fi.node, classify=classify)
+    # module-level lookup tables keyed by the enum: TABLE[x] evaluates to the entry of the member under consideration
+    d.tables = {name: {k.attr: v for k, v in zip(val.keys, val.values) if isinstance(k, ast.Attribute) and isinstance(k.value, ast.Name) and k.value.id == enum_name}
+                for name, val in fi.module.globals.items() if isinstance(val, ast.Dict)}
+    return d
 
 
 def _effects(nodes) -> list[str]:
@@ -71,16 +82,18 @@ def _effects(nodes) -> list[str]:
     return out
 
 
-def _const_stores(nodes, fn: ast.AST | None = None) -> dict[str, set[str]]:
-    """target text (alias temporaries of the receiver looked through) -> set of stored value texts."""
+def _const_stores(nodes, fn: ast.AST | None = None, d: Dispatch | None = None, fi: FuncInfo | None = None, key: str | None = None) -> dict[str, set[str]]:
+    """target text (alias temporaries of the receiver looked through) -> set of stored value texts; with a Dispatch, the values are those
+    the stored expression can have under ``key`` (temporaries, conditional expressions and module-level lookup tables evaluated)."""
     out: dict[str, set[str]] = {}
     for n in nodes:
         if n.kind == "stmt" and isinstance(n.ast, (ast.Assign, ast.AnnAssign)):
             tgts = n.ast.targets if isinstance(n.ast, ast.Assign) else [n.ast.target]
             if n.ast.value is not None:
                 for t in tgts:
-                    key = unparse(expand(fn, t)) if fn is not None and isinstance(t, ast.Attribute) else unparse(t)
-                    out.setdefault(key, set()).add(unparse(n.ast.value))
+                    k = unparse(expand(fn, t)) if fn is not None and isinstance(t, ast.Attribute) else unparse(t)
+                    vals = {unparse(x) for x in d.values_under(fi, key, n, n.ast.value)} if d is not None and fi is not None else {unparse(n.ast.value)}
+                    out.setdefault(k, set()).update(vals)
     return out
 
 
@@ -93,8 +106,11 @@ def enum_dispatch_totality(ctx: Ctx) -> None:
         fi = ctx.repo.func(f"{DM}:DtdMapper.{fn}")
         members = set(enum_members(ctx.repo.cls(f"xsdata.models.dtd:{enum_name}").node))
         d = _enum_dispatch(fi, enum_name)
-        if not d.keys:
-            raise AnalysisError(f"C16.R1: no {enum_name} dispatch in {fn} (anchor vanished)")
+        # members that are keys / entries of a table the function consults (a dict display in the function, or a module-level constant it
+        # names): the dispatch is data-driven there
+        if _table_driven(fi, enum_name, d):
+            ctx.abstain(f"{fn}: dispatch over {enum_name}", at=fi, why="no branch per member: members are looked up in a table, or the function does not branch on the enum")
+            continue
         default_nodes = d.exclusive(None)
         default_acts = bool(_effects(default_nodes))
         missing = members - set(d.keys)
@@ -117,6 +133,15 @@ def enum_dispatch_totality(ctx: Ctx) -> None:
             ctx.ob(f"DtdParser.{fn} converts through {e}(...)", any(isinstance(c.func, ast.Name) and c.func.id == e for c in calls_in(fi.node)), at=fi, construct=f"{fn} {e}", msg="raw lxml value kept")
 
 
+def _table_driven(fi: FuncInfo, enum_name: str, d) -> bool:
+    """The function consults a table (a dict / tuple display in its body or a module-level constant it names) whose entries mention members
+    of the enum it does not branch on - or it does not branch on the enum at all: the per-member behaviour is not in its control flow."""
+    tables = [x for x in ast.walk(fi.node) if isinstance(x, (ast.Dict, ast.Tuple, ast.List))] + [
+        fi.module.globals[x.id] for x in ast.walk(fi.node) if isinstance(x, ast.Name) and isinstance(fi.module.globals.get(x.id), (ast.Dict, ast.Tuple, ast.List, ast.Call))]
+    members = {y.attr for t_ in tables for y in ast.walk(t_) if isinstance(y, ast.Attribute) and isinstance(y.value, ast.Name) and y.value.id == enum_name}
+    return not d.keys or bool(members - set(d.keys))
+
+
 @rule("C16.R2")
 def occurrence_table(ctx: Ctx) -> None:
     """build_occurs equals the XML 1.0 occurrence table; an OR group adds min_occurs = 0 and a truthy, per-group choice identifier."""
@@ -125,6 +150,9 @@ def occurrence_table(ctx: Ctx) -> None:
     g = d.g
     spec = {"ONCE": ("1", "1"), "OPT": ("0", "1"), "MULT": ("0", "sys.maxsize"), "PLUS": ("1", "sys.maxsize")}
     rest = set(spec) - set(d.keys)
+    if _table_driven(fi, "DtdContentOccur", d):
+        ctx.abstain("occurrence bounds of build_occurs", at=fi, why="the bounds are looked up in a table keyed by DtdContentOccur members, not chosen by branches")
+        spec = {}
     for k, (lo, hi) in spec.items():
         key = k if k in d.keys else (None if len(rest) == 1 and k in rest else k)
         under = d.under(key)
@@ -137,6 +165,10 @@ def occurrence_table(ctx: Ctx) -> None:
                 if kname in got:
                     for leaf in d.values_under(fi, key, r, vv):
                         got[kname].add(unparse(leaf))
+        texts = got["min_occurs"] | got["max_occurs"]
+        if texts and not all(re.fullmatch(r"-?\d+|sys\.maxsize|maxsize", t) for t in texts):
+            ctx.abstain(f"occurrence bounds of {k}: {sorted(texts)[:3]}", at=fi, why="the bounds are computed, not constants the table can be compared with")
+            continue
         ctx.ob(f"occurrence {k} -> ({lo}, {hi})", got["min_occurs"] == {lo} and got["max_occurs"] == {hi}, at=fi, construct=f"occurs {k}", msg=f"mapped to ({sorted(got['min_occurs'])}, {sorted(got['max_occurs'])})")
     bc = ctx.repo.func(f"{DM}:DtdMapper.build_content")
     dc = _enum_dispatch(bc, "DtdContentType")
@@ -220,19 +252,36 @@ def attribute_default_table(ctx: Ctx) -> None:
     d = _enum_dispatch(fi, "DtdAttributeDefault")
     g = d.g
 
-    rq, im, fx = _const_stores(d.under("REQUIRED"), fi.node), _const_stores(d.under("IMPLIED"), fi.node), _const_stores(d.under("FIXED"), fi.node)
-    ctx.ob("#REQUIRED -> min_occurs 1", rq.get("attr.restrictions.min_occurs") == {"1"}, at=fi, construct="REQUIRED", msg=str(rq))
-    ctx.ob("#IMPLIED -> min_occurs 0", im.get("attr.restrictions.min_occurs") == {"0"}, at=fi, construct="IMPLIED", msg=str(im))
-    ctx.ob("#FIXED -> fixed, required, default = declared value", fx.get("attr.fixed") == {"True"} and fx.get("attr.default") == {"default_value"} and fx.get("attr.restrictions.min_occurs") == {"1"}, at=fi, construct="FIXED", msg=str(fx))
+    table_driven = _table_driven(fi, "DtdAttributeDefault", d)
+    if table_driven:
+        ctx.abstain("attribute-default table of build_attribute_restrictions", at=fi, why="the per-keyword settings are looked up in a table keyed by DtdAttributeDefault members")
+    else:
+        rq, im, fx = (_const_stores(d.under(k_), fi.node, d, fi, k_) for k_ in ("REQUIRED", "IMPLIED", "FIXED"))
+        ctx.ob("#REQUIRED -> min_occurs 1", rq.get("attr.restrictions.min_occurs") == {"1"}, at=fi, construct="REQUIRED", msg=str(rq))
+        ctx.ob("#IMPLIED -> min_occurs 0", im.get("attr.restrictions.min_occurs") == {"0"}, at=fi, construct="IMPLIED", msg=str(im))
+        ctx.ob("#FIXED -> fixed, required, default = declared value", fx.get("attr.fixed") == {"True"} and fx.get("attr.default") == {"default_value"} and fx.get("attr.restrictions.min_occurs") == {"1"}, at=fi, construct="FIXED", msg=str(fx))
     # no keyword (NONE): a declared default value is materialised and makes the attribute required-with-default; otherwise optional
     none_nodes = d.under(None) if "NONE" not in d.keys else d.under("NONE")
     none_key = None if "NONE" not in d.keys else "NONE"
     sets = [n for n in none_nodes if n.kind == "stmt" and isinstance(n.ast, ast.Assign) and unparse(n.ast.targets[0]) == "attr.default" and unparse(n.ast.value) == "default_value"]
+    if sets and not any(d.only_if_under(none_key, n.id, t.id, p_) for n in sets for t in d.g.nodes if t.kind == "test" for p_ in (True, False)):
+        sets = []
     nn_tests = [(t, isinstance(t.ast.ops[0], ast.IsNot)) for t in g.nodes if t.kind == "test" and isinstance(t.ast, ast.Compare) and len(t.ast.ops) == 1 and isinstance(t.ast.ops[0], (ast.Is, ast.IsNot))
                 and unparse(t.ast.left) == "default_value" and isinstance(t.ast.comparators[0], ast.Constant) and t.ast.comparators[0].value is None]
     # with no keyword (the NONE case) the default is stored exactly when a default value was declared
-    ok = bool(sets) and all(any(d.only_if_under(none_key, n.id, t.id, pol) for t, pol in nn_tests) for n in sets)
-    ctx.ob("a declared default value is materialised as the attr default", ok, at=fi, construct="declared default", msg="declared defaults dropped")
+    def _named_not_none(n) -> bool:
+        """... or the store is guarded by a named boolean that, with no keyword, is `default_value is not None`."""
+        for t in g.nodes:
+            if t.kind == "test" and isinstance(t.ast, ast.Name) and d.only_if_under(none_key, n.id, t.id, True):
+                vals = d.values_under(fi, none_key, t, t.ast)
+                if vals and all(isinstance(v, ast.Compare) and len(v.ops) == 1 and isinstance(v.ops[0], ast.IsNot) and unparse(v.left) == "default_value"
+                                and isinstance(v.comparators[0], ast.Constant) and v.comparators[0].value is None for v in vals):
+                    return True
+        return False
+
+    ok = bool(sets) and all(any(d.only_if_under(none_key, n.id, t.id, pol) for t, pol in nn_tests) or _named_not_none(n) for n in sets)
+    if not table_driven:
+        ctx.ob("a declared default value is materialised as the attr default", ok, at=fi, construct="declared default", msg="declared defaults dropped")
     mx = [(st, v) for st, tgt, v in stores(fi.node) if isinstance(tgt, ast.Attribute) and unparse(expand(fi.node, tgt)) == "attr.restrictions.max_occurs"]
     ctx.ob("attributes occur at most once", bool(mx) and all(unparse(v) == "1" for _, v in mx) and g.must_pass(g.entry, g.exit, [g.node_of(st).id for st, _ in mx], normal_only=True), at=fi, construct="max_occurs 1", msg="max_occurs not 1 on every path")
     ba = ctx.repo.func(f"{DM}:DtdMapper.build_attribute")
@@ -241,7 +290,9 @@ def attribute_default_table(ctx: Ctx) -> None:
     ok = len(calls) == 1 and len(calls[0][1].args) == 3 and "_.default" in forms(ba, calls[0][0], calls[0][1].args[1]) and "_.default_value" in forms(ba, calls[0][0], calls[0][1].args[2])
     ctx.ob("build_attribute passes (attr, attribute.default, attribute.default_value)", ok, at=ba, construct="restriction args", msg="arguments swapped")
     ns = [(gba.node_of(c), kwarg(c, "namespace")) for c in calls_in(ba.node) if kwarg(c, "namespace") is not None]
-    ok = bool(ns) and all(n is not None and any("target.ns_map" in f and "attribute.prefix" in f for f in raw_forms(ba, n, v)) for n, v in ns)
+    looked_up = lambda n, v: n is not None and any("target.ns_map" in f and "attribute.prefix" in f for f in raw_forms(ba, n, v))  # noqa: E731
+    # (the construction may be written once per branch: the lookup where the prefix is declared, None where it is not)
+    ok = bool(ns) and any(looked_up(n, v) for n, v in ns) and all(looked_up(n, v) or (isinstance(v, ast.Constant) and v.value is None) for n, v in ns)
     ctx.ob("attribute namespace is looked up from target.ns_map by attribute.prefix", ok, at=ba, construct="attribute namespace", msg="attribute namespace resolved differently")
 
 
@@ -312,10 +363,20 @@ def xmlns_attributes(ctx: Ctx) -> None:
     # (the loops in whose body the list is modified)
     mod_loops = [l for l in loops if any(r.id in g.reachable([m for m, lab in g.succ[l.id] if lab == "iter"], blocked=[l.id]) for r in rem)]
     its = [expand_at(fi, l, l.ast.iter) for l in mod_loops if l.ast is not None]
-    ctx.ob("the attribute list is iterated over a copy while it is modified", bool(its) and all(_snapshot(it) for it in its), at=fi, construct="iterate copy", msg="removal during iteration skips attributes")
+    # what is modified: the receivers of .remove(); the loop may read it only through a snapshot (also as an argument of a lazy helper)
+    modified = {unparse(c.func.value) for r in rem for c in node_calls(r) if isinstance(c.func, ast.Attribute) and c.func.attr == "remove"}
+
+    def _reads_only_snapshots(it: ast.expr) -> bool:
+        if _snapshot(it):
+            return True
+        raw = [x for x in ast.walk(it) if isinstance(x, (ast.Name, ast.Attribute)) and unparse(x) in modified]
+        wrapped = {id(x) for sub in ast.walk(it) if isinstance(sub, ast.expr) and sub is not it and _snapshot(sub) for x in ast.walk(sub)}
+        return bool(raw) and all(id(x) in wrapped for x in raw)
+
+    ctx.ob("the attribute list is iterated over a copy while it is modified", bool(its) and all(_reads_only_snapshots(it) for it in its), at=fi, construct="iterate copy", msg="removal during iteration skips attributes")
     be = ctx.repo.func(f"{DP}:DtdParser.build_element")
     gbe = build_cfg(be.node)
-    kws = [(gbe.node_of(c), kwarg(c, "ns_map")) for c in calls_in(be.node) if kwarg(c, "ns_map") is not None]
+    kws = [(gbe.node_of(c), call_keywords(be, c)[0].get("ns_map")) for c in calls_in(be.node) if call_keywords(be, c)[0].get("ns_map") is not None]  # (also through **params)
     ok = bool(kws) and all(n is not None and any(f.startswith("cls.build_ns_map(_.prefix,") for f in forms(be, n, v)) for n, v in kws)
     ctx.ob("build_element computes ns_map from the element's own prefix and attributes", ok, at=be, construct="element ns_map", msg="ns_map computed from other inputs")
     q = ctx.repo.cls("xsdata.models.dtd:DtdElement").methods["qname"]
@@ -347,9 +408,11 @@ def send_wiring(ctx: Ctx) -> None:
 
     def _caller_headers(x: ast.Call, w) -> bool:
         lv = leaves_at(fi, w, x.args[0])
-        return any(isinstance(y, ast.Name) and y.id == "headers" for y in lv) and all((isinstance(y, ast.Name) and y.id == "headers") or (isinstance(y, ast.Dict) and not y.keys) for y in lv)
+        return bool(lv) and all((isinstance(y, ast.Name) and y.id == "headers") or (isinstance(y, ast.Dict) and not y.keys) for y in lv)
 
-    hdr = bool(hdr_leaves) and all(isinstance(x, ast.Call) and unparse(x.func) == "self.prepare_headers" and len(x.args) == 1 and _caller_headers(x, w) for x, w in hdr_leaves)
+    # (the preparation may be written once per branch: `prepare_headers(headers)` / `prepare_headers({})`)
+    hdr = bool(hdr_leaves) and all(isinstance(x, ast.Call) and unparse(x.func) == "self.prepare_headers" and len(x.args) == 1 and _caller_headers(x, w) for x, w in hdr_leaves) \
+        and any(isinstance(y, ast.Name) and y.id == "headers" for x, w in hdr_leaves for y in leaves_at(fi, w, x.args[0]))
     ctx.ob("the posted data is exactly self.prepare_payload(obj)", pay, at=fi, construct="payload prepared", msg="payload not prepared from the request object (or modified after preparation)")
     ctx.ob("the posted headers are exactly self.prepare_headers(<caller headers or {}>)", hdr, at=fi, construct="headers prepared", msg="headers not prepared (or modified after preparation)")
     ctx.ob("transport.post(config.location, data=<prepared payload>, headers=<prepared headers>)", ok and pay and hdr, at=fi, node=posts[0][1] if posts else None, construct="post wiring", msg="posts something else than the prepared payload/headers")
@@ -540,8 +603,21 @@ def emitted_head_is_imported_name(ctx: Ctx) -> None:
     ro = cls_.methods["repr_object"]
     g = build_cfg(ro.node)
     en = tests_like(ro, "isinstance(_, Enum)")
-    ey = [n for n in g.stmts() if bool(en) and n.kind == "stmt" and any(g.only_if(n.id, t.id, True) for t in en) and any(isinstance(x, ast.Yield) for x in [n.ast, *walk_no_nested(n.ast)])]
-    et = [t for _, t in _qualname_heads(ro, ey)]
+    # what is yielded for enum members: the yield statement itself, or the definition of the yielded value, runs only if isinstance(obj, Enum)
+    ey = []
+    et = []
+    for n in g.stmts():
+        if n.kind != "stmt" or n.ast is None or not en:
+            continue
+        for y in [n.ast, *walk_no_nested(n.ast)]:
+            if isinstance(y, ast.Yield) and y.value is not None:
+                for leaf, chain in flows(ro, n, y.value):
+                    where = [n, *chain]
+                    if any(g.only_if(w.id, t.id, True) for w in where for t in en):
+                        tpl = str_template(leaf)
+                        if tpl is not None:
+                            ey.append(chain[-1] if chain else n)
+                            et.append(tpl)
     ok = len(et) == 1 and [k for k, _ in et[0]] == ["hole", "lit", "hole"] and bool(raw_forms(ro, ey[0], et[0][0][1]) & QUALNAME_OF_OBJ) and et[0][1][1] == "." and "obj.name" in raw_forms(ro, ey[0], et[0][2][1])
     ctx.ob("enum members are emitted as <class __qualname__>.<member name>", ok, at=ro, node=ey[0].ast if ey else None, construct="enum head",
            msg="str(member) uses the bare class name: a member of a nested enum is emitted as 'Kind.A' while only the outer class is imported (NameError)")
@@ -604,6 +680,13 @@ def _import_statements(ctx: Ctx, bi: FuncInfo):
                     t = str_template(leaf)
                     if t is not None and any(k == "lit" and "import" in str(v) for k, v in t):
                         out.append((t, r, flow_conditions(fi, r, chain), fi))
+            for n in g.stmts():  # a generator helper yields the statements
+                y = n.ast.value if n.kind == "stmt" and isinstance(n.ast, ast.Expr) else None
+                if isinstance(y, ast.Yield) and y.value is not None:
+                    for leaf, chain in flows(fi, n, y.value):
+                        t = str_template(leaf)
+                        if t is not None and any(k == "lit" and "import" in str(v) for k, v in t):
+                            out.append((t, n, flow_conditions(fi, n, chain), fi))
     return out
 
 
@@ -656,10 +739,13 @@ def container_delimiters(ctx: Ctx) -> None:
         others = set().union(*[v for k, v in pairs.items() if k != key]) if len(pairs) > 1 else set()
         return mine - others if len(mine) > 1 else mine
 
-    ctx.ob("tuples are written with ( )", only("tuple") == {("(", ")")}, at=fi, construct="tuple delimiters", msg=f"tuple -> {sorted(only('tuple'))}: a tuple field evaluates back to a list (frozen models become unequal)")
-    ctx.ob("sets are written with { }", only("set") == {("{", "}")}, at=fi, construct="set delimiters", msg=f"set -> {sorted(only('set'))}")
-    ctx.ob("frozensets are written with frozenset({ })", only("frozenset") == {("frozenset({", "})")}, at=fi, construct="frozenset delimiters", msg=f"frozenset -> {sorted(only('frozenset'))}")
-    ctx.ob("lists (the remaining kind) are written with [ ]", only(None) == {("[", "]")}, at=fi, construct="list delimiters", msg=f"else -> {sorted(only(None))}")
+    if not d.keys or not set(d.keys) <= {"tuple", "set", "frozenset", "list"}:
+        ctx.abstain("container delimiters of repr_array", at=fi, why="no isinstance(obj, <builtin kind>) dispatch in the function: the delimiters are chosen through a table / helper")
+    else:
+        ctx.ob("tuples are written with ( )", only("tuple") == {("(", ")")}, at=fi, construct="tuple delimiters", msg=f"tuple -> {sorted(only('tuple'))}: a tuple field evaluates back to a list (frozen models become unequal)")
+        ctx.ob("sets are written with { }", only("set") == {("{", "}")}, at=fi, construct="set delimiters", msg=f"set -> {sorted(only('set'))}")
+        ctx.ob("frozensets are written with frozenset({ })", only("frozenset") == {("frozenset({", "})")}, at=fi, construct="frozenset delimiters", msg=f"frozenset -> {sorted(only('frozenset'))}")
+        ctx.ob("lists (the remaining kind) are written with [ ]", only(None) == {("[", "]")}, at=fi, construct="list delimiters", msg=f"else -> {sorted(only(None))}")
     ys = [y.value.value for y in walk_no_nested(fi.node) if isinstance(y, ast.Yield) and isinstance(y.value, ast.Constant) and isinstance(y.value.value, str)]
     ctx.ob("every item is followed by a comma (so a one-element tuple stays a tuple)", any(v.startswith(",") for v in ys), at=fi, construct="item comma", msg="trailing comma missing")
     empty = [n for n in g.stmts() if n.kind == "stmt" and any(isinstance(y, ast.Yield) and unparse(y.value) == "str(obj)" for y in [n.ast, *walk_no_nested(n.ast)])]
@@ -681,7 +767,10 @@ def container_delimiters(ctx: Ctx) -> None:
                    if isinstance(y, ast.YieldFrom) and isinstance(y.value, ast.Call) and call_name_of(y.value) == "repr_object" and y.value.args]
         seps = [y.value.value for y in body_nodes if isinstance(y, ast.Yield) and isinstance(y.value, ast.Constant)]
         ok = len(emitted) == 2 and bool(emitted[0] & kt) and bool(emitted[1] & vt) and any(str(x).strip() == ":" for x in seps)
-    ctx.ob("mappings emit key: value pairs through repr_object", ok, at=rm, construct="mapping pairs", msg="mapping emission changed")
+    if loops and any(isinstance(x, (ast.For, ast.While)) for st in loops[0].body for x in ast.walk(st)):
+        ctx.abstain("mapping pairs: the parts of an entry are emitted by a nested loop", at=rm)
+    else:
+        ctx.ob("mappings emit key: value pairs through repr_object", ok, at=rm, construct="mapping pairs", msg="mapping emission changed")
 
 
 @rule("C18.R5")
@@ -708,8 +797,11 @@ def module_qualified_reprs(ctx: Ctx) -> None:
     nonfinite = [s for s, c in shapes if s == 'float("{}")']
     qn = [s for s, c in shapes if s == 'QName("{}")' and "isinstance(_,QName)" in c]
     fallback = [s for s, c in shapes if s == "repr(_)"]
-    ctx.ob("literal_value: non-finite floats -> float(\"...\"), QName -> QName(\"text\"), else repr()", bool(nonfinite) and bool(qn) and bool(fallback), at=lv, construct="literal_value",
-           msg=f"literal rendering changed: {[s for s, _ in shapes]}")
+    if not nonfinite and not qn and not fallback:
+        ctx.abstain("literal_value rendering", at=lv, why=f"none of the returned shapes is a text template or repr(): {[s for s, _ in shapes][:3]} (rendering chosen through a table of callables)")
+    else:
+        ctx.ob("literal_value: non-finite floats -> float(\"...\"), QName -> QName(\"text\"), else repr()", bool(nonfinite) and bool(qn) and bool(fallback), at=lv, construct="literal_value",
+               msg=f"literal rendering changed: {[s for s, _ in shapes]}")
 
 
 @rule("C18.R6")
@@ -840,3 +932,46 @@ def explicit_empty_namespace_is_kept(ctx: Ctx) -> None:
         bad += [x for x in walk_no_nested(h.node) if isinstance(x, ast.BoolOp) and any(isinstance(v, ast.Name) and v.id == "namespace" for v in x.values[:-1])]
         ctx.ob(f"{q.split(':')[1]}: the namespace argument is not defaulted by truthiness (the empty string is a value)", not bad, at=h, node=getattr(bad[0], "ast", bad[0]) if bad else None, construct=f"namespace truthiness {h.name}",
                msg='an explicit namespace="" falls back to the inherited namespace: Fault/detail becomes soapenv:detail and a real SOAP fault cannot be bound')
+
+
+@rule("C16.R8")
+def xmlns_declarations_are_recognised_by_their_value(ctx: Ctx) -> None:
+    """DtdParser.build_ns_map takes every xmlns / xmlns:p attribute that declares a value into the element's namespace map - whatever its
+    default keyword (#FIXED or a plain default): the skip guard looks at attribute.default_value, never at the keyword attribute.default."""
+    fi = ctx.repo.func(f"{DP}:DtdParser.build_ns_map")
+    fam = family(ctx.repo, fi)
+    value_tests = kind_tests = 0
+    where = None
+    for f in fam:
+        g = build_cfg(f.node)
+        for t in g.nodes:
+            if t.kind != "test" or t.ast is None:
+                continue
+            for x in ast.walk(t.ast):
+                if isinstance(x, ast.Attribute) and isinstance(x.ctx, ast.Load):
+                    if x.attr == "default_value":
+                        value_tests += 1
+                    elif x.attr == "default":
+                        kind_tests += 1
+                        where = where or t.ast
+    if value_tests == 0 and kind_tests == 0:
+        ctx.abstain("xmlns recognition of build_ns_map", at=fi, why="no test on attribute.default_value / attribute.default in the function or its helpers")
+        return
+    ctx.ob("build_ns_map recognises a namespace declaration by its declared value (attribute.default_value), not by the default keyword", value_tests >= 1 and kind_tests == 0, at=fi, node=where,
+           construct="xmlns by value", msg="an xmlns attribute with a plain default (`xmlns:p CDATA 'urn:x'`) is not moved into the namespace map: the element loses its namespace and keeps a stray attribute")
+
+
+@rule("C18.R6")
+def enum_members_never_take_the_scalar_path(ctx: Ctx) -> None:
+    """PycodeSerializer.repr_object: the generic literal rendering (literal_value / repr) is reached only for values that are NOT Enum
+    members - an Enum whose class mixes in str / int is still written as <Class>.<member>."""
+    ro = ctx.repo.func(f"{PC}:PycodeSerializer.repr_object")
+    g = build_cfg(ro.node)
+    en = tests_like(ro, "isinstance(_, Enum)")
+    lit = [n for n in g.stmts() if any(call_name_of(c) == "literal_value" for c in node_calls(n))]
+    if not en or not lit:
+        ctx.abstain("enum-before-scalar order of repr_object", at=ro, why="the Enum test or the literal_value call is not in the function (moved into a helper that is not inlined)")
+        return
+    bad = [n for n in lit if not any(g.only_if(n.id, t.id, False) for t in en)]
+    ctx.ob("literal_value(obj) is reached only when isinstance(obj, Enum) is false", not bad, at=ro, node=bad[0].ast if bad else None, construct="enum before scalars",
+           msg="a str / int based Enum member takes the scalar path and is written as its repr (<Unit.IN: 'in'>): the generated source does not compile")
